@@ -25,7 +25,8 @@ from common import coqrun, enc
 ID = "C04"
 PROP_FILE = "props/C04.v"
 THEOREMS = ["C04_laminar", "C04_tid_only", "C04_sort_stage_perm", "C04_final_tid_in_chain", "C04_chains_private",
-            "C04_no_merge", "C04_drop", "C04_no_err_partial", "C04_no_err_sorted_partial"]
+            "C04_no_merge", "C04_drop", "C04_no_err_partial", "C04_no_err_sorted_partial",
+            "C04_lane_renaming_injective"]
 ALLOWED_AXIOMS = []
 MANIFEST = {
     "text": "Proof. Coq theorems over an executable model (Overlap.v) of sort_events (per-lane ts asc / dur desc), "
@@ -608,7 +609,7 @@ def run(ctx):
     finally:
         shutil.rmtree(work, ignore_errors=True)
     bad2, _, secs2 = coqrun.run_cases(
-        "C04_e2e", "From AiuModel Require Import Overlap.", "((mode * bool) * list ev)", "e2e_val", e2e_terms,
+        "C04_e2e", "From AiuModel Require Import Overlap Lanes.", "((mode * bool) * list ev)", "e2e_val", e2e_terms,
         prelude=E2E_PRELUDE, shard=500)
     mism += [{"name": "correspondence Overlap.run (host slices on lane (pid,1000)) vs Acelyzer end to end",
               "case": dict(tie_cases[j], e2e=True), "impl": e2e_terms[j][1][:600]} for j in bad2[:3]]
@@ -651,7 +652,7 @@ E2E_PRELUDE = """
 Definition uid_leb (a b : ev) : bool := (uid a <=? uid b)%Z.
 (* tb_refinement_lightweight, a later stage: host slices that carry torch-profiler annotations ("External id") are pulled
    to the top by renaming their lane t to t/10 + t mod 10 (1000..1005 -> 100..105) *)
-Definition light_tid (annot : bool) (t : Z) : Z := if annot then (t / 10 + t mod 10)%Z else t.
+Definition light_tid (annot : bool) (t : Z) : Z := if annot then Lanes.light_tid t else t.
 Definition e2e_val (c : (mode * bool) * list ev) : val :=
   match run (fst (fst c)) 5%nat true (snd c) with
   | Err t => VE t
